@@ -221,6 +221,20 @@ fn main() {
         }
     }
     let rep = run(&cx);
-    let code = finish(&cx, &kf, &rep);
+    // a failure of the reporting code itself must not turn a found violation into "inconclusive"
+    let code = match std::panic::catch_unwind(std::panic::AssertUnwindSafe(|| finish(&cx, &kf, &rep))) {
+        Ok(code) => code,
+        Err(_) => {
+            if rep.violations.is_empty() {
+                2
+            } else {
+                for v in &rep.violations {
+                    let p = write_replay(&cx, v);
+                    println!("VIOLATION property={} replay={}", name, p.display());
+                }
+                1
+            }
+        }
+    };
     std::process::exit(code);
 }
